@@ -142,7 +142,7 @@ def run_case(case):
         seen_out.add(res)
     # fault sequences on one object through the explicit-solver path (the call is not cached, so every call consults the solver)
     if knotted:
-        L = 2 if _tier[0] == "quick" else 3
+        L = 2 if (_tier[0] == "quick" or case["n"] > 9) else 3  # length-3 scripts on the larger structures alone cost three quarters of an hour
         alphabet = seams.BEHAVIOURS + ["none"]
         for n in range(2, L + 1):
             for script in itertools.product(alphabet, repeat=n):
